@@ -161,6 +161,35 @@ def run_config(ctx, cfg):
             P1 = H * 3
             P2 = -H
             vc.check("history/H after H * 3 and -H", H.apply(S, X) == a.val + b.val and P1.apply(S, X) == 3 * (a.val + b.val) and P2.apply(S, X) == -(a.val + b.val))
+            # history: an evaluation in which a leaf raised (a batch of the wrong width refused by a Pauli observable, say)
+            # and the caller caught the error leaves no trace: later evaluations are the arithmetic on the current leaves
+            class Refusing(Leaf):
+                refuse = False
+
+                def apply(self, nn_state, samples):
+                    if self.refuse:
+                        raise ValueError("refused by a leaf")
+                    return Leaf.apply(self, nn_state, samples)
+            e1, e2, e3 = Leaf(vc.fresh_real("e1"), "e1"), Refusing(vc.fresh_real("e2"), "e2"), Leaf(vc.fresh_real("e3"), "e3")
+            shared = e1 + e3
+            tree = (shared * 2 + e2) - shared
+            other = e1 * 3 + e3
+            vc.check("history/exception: before any failure", tree.apply(S, X) == (e1.val + e3.val) * 2 + e2.val - (e1.val + e3.val))
+            e2.refuse = True
+            raised = False
+            try:
+                tree.apply(S, X)
+            except ValueError:
+                raised = True
+            vc.check("history/exception: an error raised by a leaf reaches the caller", raised)
+            e2.refuse = False
+            e1.val, e2.val, e3.val = vc.fresh_real("e1b"), vc.fresh_real("e2b"), vc.fresh_real("e3b")
+            vc.check("history/exception: the same composite after a failed evaluation == arithmetic on the current leaves",
+                     tree.apply(S, X) == (e1.val + e3.val) * 2 + e2.val - (e1.val + e3.val))
+            vc.check("history/exception: a sub-expression shared with the failed composite == arithmetic on the current leaves", shared.apply(S, X) == e1.val + e3.val)
+            vc.check("history/exception: another composite over the same leaves == arithmetic on the current leaves", other.apply(S, X) == e1.val * 3 + e3.val)
+            fresh_tree = (e1 + e3) * 2 + e2
+            vc.check("history/exception: a composite built after the failure == arithmetic on the current leaves", fresh_tree.apply(S, X) == (e1.val + e3.val) * 2 + e2.val)
             for tag, c in scalars():
                 x, y = Leaf(vc.fresh_real("x"), "x"), Leaf(vc.fresh_real("y"), "y")
                 vc.check("Sum(num,obs).apply == num + obs [%s]" % tag, SBSum(c, x).apply(S, X) == c + x.val)
